@@ -40,6 +40,14 @@ func (h *evHeap) Pop() any {
 // ErrBudget is returned by Run when the step or simulated-time budget is hit.
 var ErrBudget = errors.New("scheduler budget exhausted")
 
+// ErrSteps is returned by Run when the step budget (a limit of the tool, not of the system
+// under test) is hit before the simulated-time horizon.
+var ErrSteps = errors.New("scheduler step budget exhausted")
+
+// StepScale multiplies every step budget: the worker re-runs a scenario that ran out of steps
+// with a larger budget before it believes in a livelock.
+var StepScale = 1
+
 // Pending is readable by the real-time watchdog (outside the bubble).
 var Pending atomic.Int64
 
@@ -303,7 +311,10 @@ func (s *Sched) Run(done func() bool) error {
 			}
 			continue
 		}
-		if s.Steps >= s.MaxSteps || !now.Before(deadline) {
+		if s.Steps >= s.MaxSteps*StepScale && now.Before(deadline) {
+			return ErrSteps
+		}
+		if s.Steps >= s.MaxSteps*StepScale || !now.Before(deadline) {
 			return ErrBudget
 		}
 		if e.at.After(now) {
